@@ -30,6 +30,7 @@ namespace datasketches {
 
 template<typename T, typename K, typename A>
 density_sketch<T, K, A>::density_sketch(uint16_t k, uint32_t dim, const K& kernel, const A& allocator):
+allocator_(allocator),
 kernel_(kernel),
 k_(k),
 dim_(dim),
@@ -43,6 +44,7 @@ levels_(1, Level(allocator), allocator)
 template<typename T, typename K, typename A>
 density_sketch<T, K, A>::density_sketch(uint16_t k, uint32_t dim, uint32_t num_retained, uint64_t n,
                                         Levels&& levels, const K& kernel):
+allocator_(levels.get_allocator()),
 kernel_(kernel),
 k_(k),
 dim_(dim),
